@@ -210,7 +210,7 @@ theorem rrsigs_attached {z : Zone} {o : LName} {q : Query} (d n : Bool) (hs : al
       rw [hla] at hrr
       dsimp only at hrr
       have ha := lookupAnswers_fromZone hla
-      have hns : ∀ x ∈ (if q.type == T_SOA then okAnswers (lookupAnswers z o o T_NS)
+      have hns : ∀ x ∈ (if (q.type == T_SOA && !isReferral o a) = true then okAnswers (lookupAnswers z o o T_NS)
           else if (n && d && hasWildcardMatch a) = true then nsecRecords z o q.name else []),
           rdatasFromZone z x := by
         intro x hx
@@ -255,19 +255,19 @@ theorem negative_carries_nsec_records {z : Zone} {o : LName} {q : Query} (hwf : 
       have hne := lookupAnswers_ok_nonempty hla
       simp only [hla] at hneg
       exfalso
-      by_cases hr : isReferral a q.type = true
+      by_cases hr : isReferral o a = true
       · simp only [hr, if_true] at hneg
         cases a with
         | nil => exact hne rfl
         | cons r rest =>
           have hrt : r.type = T_NS := by
             simp only [isReferral, Bool.and_eq_true, beq_iff_eq] at hr
-            exact hr.1.1
+            exact hr.1
           rcases hneg with h | ⟨_, _, h⟩
           · cases h
           · exact h r (by simp) hrt
-      · have hr' : isReferral a q.type = false := by
-          cases h : isReferral a q.type <;> simp_all
+      · have hr' : isReferral o a = false := by
+          cases h : isReferral o a <;> simp_all
         simp only [hr', Bool.false_eq_true, if_false] at hneg
         rcases hneg with h | ⟨_, h, _⟩
         · cases h
